@@ -83,9 +83,10 @@ class NameSpaces:
             return bool(vals) and len(vals) == len([d for d in ds if d[0] != "aug"]) and all(self.san_expr(v, depth + 1, seen | {e.id}) for v in vals)
         return False
 
-    def san_coll(self, e: ast.AST, depth: int = 0) -> Tuple[bool, str]:
+    def san_coll(self, e: ast.AST, depth: int = 0, seen: Optional[Set[str]] = None) -> Tuple[bool, str]:
         """(holds only sanitised names?, why not)"""
-        if depth > 6:
+        seen = set() if seen is None else seen
+        if depth > 8:
             return False, "definition chain too deep"
         if isinstance(e, (ast.SetComp, ast.ListComp, ast.GeneratorExp)):
             ok = self.san_comp_elt(e)
@@ -105,20 +106,23 @@ class NameSpaces:
                 return self.san_coll(e.func.value, depth + 1)
             return False, f"`{norm(e)[:60]}` returns names that did not pass a NameSanitizer function"
         if isinstance(e, ast.BinOp) and isinstance(e.op, ast.BitOr):
-            a, wa = self.san_coll(e.left, depth + 1)
-            b, wb = self.san_coll(e.right, depth + 1)
+            a, wa = self.san_coll(e.left, depth + 1, seen)
+            b, wb = self.san_coll(e.right, depth + 1, seen)
             return a and b, wa or wb
         if isinstance(e, ast.Name):
+            if e.id in seen:
+                return True, ""  # co-inductive: `taken = taken | more`
+            seen = seen | {e.id}
             ds = self.L.defs.get(e.id, [])
             if not ds or any(k == "param" for k, _, _ in ds):
                 return False, f"`{e.id}` comes from outside the function"
             for k, v, st in ds:
                 if k == "assign" and v is not None:
-                    ok, why = self.san_coll(v, depth + 1)
+                    ok, why = self.san_coll(v, depth + 1, seen)
                     if not ok:
                         return False, why
                 elif k == "aug" and isinstance(st, ast.AugAssign):
-                    ok, why = self.san_coll(st.value, depth + 1)
+                    ok, why = self.san_coll(st.value, depth + 1, seen)
                     if not ok:
                         return False, why
                 elif k != "assign":
@@ -188,6 +192,12 @@ def reservation_rule(pp: Function, rep, rule: str) -> None:
         if not about_path:
             continue
         gs = [(g.ast, pol) for g, pol in guards(cfg, n.id, dom) if g.kind == "test"]
+        def _unneg(t: ast.AST, pol):
+            while isinstance(t, ast.UnaryOp) and isinstance(t.op, ast.Not) and pol is not None:
+                t, pol = t.operand, not pol
+            return t, pol
+
+        gs = [_unneg(t, pol) for t, pol in gs]
         only_non_path = any(
             isinstance(t, ast.Compare) and len(t.ops) == 1 and any(const_str(y) == "path" for y in [t.left] + t.comparators)
             and ((isinstance(t.ops[0], ast.NotEq) and pol is True) or (isinstance(t.ops[0], ast.Eq) and pol is False)) for t, pol in gs)
